@@ -308,10 +308,13 @@ def lean_node(case, node):
     return d
 
 
-def lean_request(case, op="run", kw=None):
+def lean_request(case, op="run", kw=None, then=None):
     """`kw`: list of (rule, contained, ops) for which the driver evaluates the constructor keyword filter;
-    ops = [[is_set, name]...]: what user code stored on / deleted from the object before its constructor ran"""
+    ops = [[is_set, name]...]: what user code stored on / deleted from the object before its constructor ran;
+    `then`: load trees attempted afterwards with the same classes (history)"""
     req = {"op": op, "nclasses": len(case["classes"]), "loads": [lean_node(case, n) for n in case["loads"]]}
+    if then:
+        req["then"] = [lean_node(case, n) for n in then]
     if kw:
         req["kw"] = [{"attrs": RULE_ATTRS[r], "assigned": RULE_ATTRS[r][:1], "contained": bool(c),
                       "extras": ["_tx_filename", "_tx_metamodel", "_tx_model_params", "_tx_model_repository",
@@ -885,6 +888,8 @@ def run_case(case, probe=True):
                 r.keep.clear()
                 r.idmap.clear()
             obs["probe_same"] = views[0] == views[1]
+            # the later attempt with the same metamodel, for the correspondence with the model's history (`runNext`)
+            obs["probe_run"] = {"ok": views[0]["ok"], "events": views[0]["events"]}
             if not obs["probe_same"]:
                 obs["probe"] = views
             obs["probe_ok"] = views[1]["ok"]
